@@ -35,8 +35,9 @@ inductive ScanHit (ld : List Bytes) (ce add : Bool) (t : ArgType) (v : AVal) (st
   | testlistSkip (hr : a.required = true) (ht : a.types = [.testlist]) (htt : t = .test) (hadd : add = false)
       (hst : st' = st) (hpl : pl = .nowhere)
   | required (hr : a.required = true) (ht : a.types ≠ [.testlist]) (hv : validType t a.types = true)
-      (hres : (st', pl) = takeRequired add v st a (pos + pre.length))
+      (hres : (st', pl) = takeRequired add v st a (pos + pre.length)) (hval : validValue a v ld ce = .ok true)
   | optional (hr : a.required = false) (ht : t ∈ a.types) (hres : takeOptional ld ce add v st a = .ok (st', pl))
+      (hval : validValue a v ld ce = .ok true)
 
 theorem scan_cases (cmd : Bytes) (ld : List Bytes) (ce add : Bool) (t : ArgType) (v : AVal) (st : CState) :
     ∀ (defs : List ArgDef) (pos : Nat) (st' : CState) (pl : Placement),
@@ -62,8 +63,8 @@ theorem scan_cases (cmd : Bytes) (ld : List Bytes) (ce add : Bool) (t : ArgType)
         cases hit with
         | testlistAdd hr ht htt hadd args happ hst hpl => exact .testlistAdd hr ht htt hadd args happ hst hpl
         | testlistSkip hr ht htt hadd hst hpl => exact .testlistSkip hr ht htt hadd hst hpl
-        | required hr ht hv hres => exact .required hr ht hv (by rw [← hlen]; exact hres)
-        | optional hr ht hres => exact .optional hr ht hres
+        | required hr ht hv hres hval => exact .required hr ht hv (by rw [← hlen]; exact hres) hval
+        | optional hr ht hres hval => exact .optional hr ht hres hval
     unfold scan at h
     by_cases hreq : d.required = true
     · simp only [hreq, if_true] at h
@@ -99,7 +100,7 @@ theorem scan_cases (cmd : Bytes) (ld : List Bytes) (ce add : Bool) (t : ArgType)
             | false => simp at h
             | true =>
               simp at h
-              exact Or.inr ⟨[], d, rest, rfl, rfl, .required hreq htl' hvt (by simp [h])⟩
+              exact Or.inr ⟨[], d, rest, rfl, rfl, .required hreq htl' hvt (by simp [h]) hvv⟩
         · simp [hvt] at h
     · have hopt : d.required = false := by simpa using hreq
       simp only [hopt, Bool.false_eq_true, if_false] at h
@@ -112,7 +113,10 @@ theorem scan_cases (cmd : Bytes) (ld : List Bytes) (ce add : Bool) (t : ArgType)
           simp only at h
           by_cases hc : (b && (decide (ArgType.tag ∈ d.types) || !assocHas st.arguments d.name)) = true
           · rw [if_pos hc] at h
-            exact Or.inr ⟨[], d, rest, rfl, rfl, .optional hopt hin h⟩
+            have hb : b = true := by
+              simp only [Bool.and_eq_true] at hc; exact hc.1
+            subst hb
+            exact Or.inr ⟨[], d, rest, rfl, rfl, .optional hopt hin h hvv⟩
           · rw [if_neg hc] at h
             exact recur h hopt
       · simp only [hin, decide_false, if_false] at h
